@@ -167,8 +167,11 @@ func init() {
 				i.quiesceAll()
 			}()
 			fs.crashAt = 0
+			call := i.path.crashCalls
+			i.path.crashCalls++
 			if crashed {
 				i.processDied()
+				i.captureImage(call)
 			}
 			return crashed
 		},
